@@ -52,6 +52,14 @@ PROPS = {
         "trusted": ["tree-sitter parse of the corpus sources (node ranges are taken from the real parse)"],
         "assumptions": ["the sigil is the single byte '$'; captured ranges are byte ranges of the document; the indentation clause is checked only for captures without blank or under-indented continuation lines (the property's own restriction)"],
     },
+    "C19": {
+        "level_text": "Coq theorems (axiom-free) over a Gallina model of the tree-sitter cursor iterators and the Node navigation API: Pre/Post/Level unfold to exactly the recursive pre-/post-/level-order list of the subtree (each node once, in order, nothing outside; any number of next() calls yields a prefix), ancestors is the chain of parents, next_all/prev_all are the iterated siblings for every node including the root, child ranges nest, and get_char_column / position equal the newline and character counts of the prefix. Tied on every run: the public API on every node of real and token-mutated (error-containing, CRLF, lone-CR, multi-byte, empty) trees of all 23 languages vs the extracted model on the dumped tree; direct oracle: the API against recursive baselines computed from children() and against the bytes",
+        "level_note": "trusted: Coq kernel, extraction + driver, Rust harness; that tree-sitter's child ranges are ordered/nested and its rows equal newline counts is validated per dumped tree (wfb, direct oracle), not proved; the sibling clause excludes parents with zero-width children as the property does",
+        "streams": ["c19"],
+        "cli": False,
+        "trusted": ["tree-sitter cursor primitives (goto_first_child, goto_next_sibling, goto_parent scoped to the start node, goto_first_child_for_byte) behave as modelled: exercised by the tie on every tree"],
+        "assumptions": ["node ids are unique within a document (tree-sitter node identity)"],
+    },
     "C20": {
         "level_text": "Coq theorems over a Gallina model of extract_meta_var / pre_process_pattern / is_matched / Substring::compute for all strings, all indices and all integer bounds (not the property's length bounds); the model is tied to the code on every run by running the extracted model and the Rust functions on the same inputs (exhaustive up to a length bound, 23 languages) and the expando table is re-scraped from the source so the table obligation is re-proved against the code as it is",
         "level_note": "trusted: Coq kernel, extraction (ExtrOcamlBasic only) + OCaml driver, Rust harness, table scraper; tree-sitter grammars delivering a spelling as one leaf are validated by enumeration, not proved",
